@@ -259,6 +259,79 @@ impl SendChannelReliable {
     }
 }
 
+#[cfg(feature = "verif")]
+fn verif_opt(d: &Option<Duration>) -> String {
+    match d {
+        None => "-".to_string(),
+        Some(d) => d.as_nanos().to_string(),
+    }
+}
+
+#[cfg(feature = "verif")]
+impl SendChannelReliable {
+    /// Canonical read-only dump of the channel state (verification hook).
+    pub fn verif_dump(&self) -> String {
+        let mut un: Vec<String> = Vec::new();
+        for (id, m) in self.unacked_messages.iter() {
+            match m {
+                UnackedMessage::Small { message, last_sent } => un.push(format!("{}:S{}@{}", id, message.len(), verif_opt(last_sent))),
+                UnackedMessage::Sliced {
+                    message,
+                    num_slices,
+                    num_acked_slices,
+                    next_slice_to_send,
+                    acked,
+                    last_sent,
+                } => {
+                    let bits: String = acked.iter().map(|b| if *b { '1' } else { '0' }).collect();
+                    let ls: Vec<String> = last_sent.iter().map(verif_opt).collect();
+                    un.push(format!(
+                        "{}:L{},{},{},{},{}@{}",
+                        id,
+                        message.len(),
+                        num_slices,
+                        num_acked_slices,
+                        next_slice_to_send,
+                        bits,
+                        ls.join(",")
+                    ));
+                }
+            }
+        }
+        format!(
+            "mem={},max={},next={},un=[{}]",
+            self.memory_usage_bytes,
+            self.max_memory_usage_bytes,
+            self.next_reliable_message_id,
+            un.join(";")
+        )
+    }
+}
+
+#[cfg(feature = "verif")]
+impl ReceiveChannelReliable {
+    /// Canonical read-only dump of the channel state (verification hook).
+    pub fn verif_dump(&self) -> String {
+        let msgs: Vec<String> = self.messages.iter().map(|(id, m)| format!("{}:{}", id, m.len())).collect();
+        let mut ids: Vec<&u64> = self.slices.keys().collect();
+        ids.sort();
+        let sl: Vec<String> = ids.iter().map(|id| format!("{}={}", id, self.slices[id].verif_dump())).collect();
+        let rec: Vec<String> = match &self.reliable_order {
+            ReliableOrder::Ordered => vec![],
+            ReliableOrder::Unordered { received_messages, .. } => received_messages.iter().map(|i| i.to_string()).collect(),
+        };
+        format!(
+            "mem={},max={},old={},msgs=[{}],sl=[{}],rec=[{}]",
+            self.memory_usage_bytes,
+            self.max_memory_usage_bytes,
+            self.oldest_pending_message_id,
+            msgs.join(";"),
+            sl.join(";"),
+            rec.join(";")
+        )
+    }
+}
+
 impl ReceiveChannelReliable {
     pub fn new(max_memory_usage_bytes: usize, ordered: bool) -> Self {
         let reliable_order = match ordered {
